@@ -152,6 +152,9 @@ type gateSpec struct {
 	m      pat.M
 	forall bool // must be a forall gate
 	expect string
+	// alt, when set, decides the clause on the whole alternative (a clause that
+	// may be spread over several gates); it is tried when no single gate matches m
+	alt func(a *flow.Alt) bool
 }
 
 // requireGates checks that every success alternative contains a gate matching
@@ -179,6 +182,9 @@ func (env *Env) requireGates(e *flow.Engine, alts []*flow.Alt, part string, spec
 					}
 					break
 				}
+			}
+			if !found && sp.alt != nil && sp.alt(a) {
+				found = true
 			}
 			if !found {
 				okAll = false
